@@ -5,7 +5,8 @@
    Gallina function of the class lookup and the frame remapping (Stacktrace.v, Java.v), so their
    agreement follows from the agreement of the lookups. *)
 From PG Require Import Base Mapping Spec Mapper CacheWriter CacheReader CacheStructDefs
-  MapperProofs CacheBytesProofs Domain WriterInv CacheProofs CacheLayout Stacktrace Java JavaProofs.
+  MapperProofs CacheBytesProofs Domain WriterInv CacheProofs CacheLayout Stacktrace Java JavaProofs
+  BridgeC02 BridgeUtf8 Bridges.
 
 (* reading back the written bytes gives exactly the written structure *)
 Theorem C02_bytes_roundtrip : forall rs, dom32 rs = true -> sizes_ok rs = true ->
@@ -48,3 +49,26 @@ Theorem C02_index_irrelevant : forall rs c m line file,
   wf_class_names rs = true -> wf_line_mappings rs = true ->
   m_remap_frame_lines (build true rs) c m line file = m_remap_frame_lines (build false rs) c m line file.
 Proof. exact mapper_index_irrelevant. Qed.
+
+(* whole-stack-trace remapping, text and typed: cache = mapper (= the loop instantiated with the
+   specification lookups), under the representable domain only *)
+Theorem C02_text_trace : forall rs ix, dom32 rs = true -> sizes_ok rs = true -> forall input,
+  remap_text (c_remap_class (C rs)) (c_remap_frame_lines (C rs)) input
+  = remap_text (m_remap_class (build ix rs))
+               (fun c m l f => frames_of (m_remap_frame_lines (build ix rs) c m l f)) input
+  /\ remap_text (c_remap_class (C rs)) (c_remap_frame_lines (C rs)) input
+     = remap_text (Sclass rs) (Sline rs) input.
+Proof. exact C02_text_dom. Qed.
+
+Theorem C02_typed_trace : forall rs ix, dom32 rs = true -> sizes_ok rs = true -> forall t,
+  remap_typed (c_remap_class (C rs)) (c_remap_frame_lines (C rs)) t
+  = remap_typed (m_remap_class (build ix rs))
+                (fun c m l f => frames_of (m_remap_frame_lines (build ix rs) c m l f)) t
+  /\ remap_typed (c_remap_class (C rs)) (c_remap_frame_lines (C rs)) t
+     = remap_typed (Sclass rs) (Sline rs) t.
+Proof. exact C02_typed_dom. Qed.
+
+(* for records parsed from bytes the domain reduces to: names non-empty, numbers < 2^32-1
+   (UTF-8 validity and positive end lines are theorems about parser output) *)
+Theorem C02_domain_of_parsed_bytes : forall b, simple_ok (recs b) = true -> dom32 (recs b) = true.
+Proof. exact dom32_recs_simple. Qed.
